@@ -38,6 +38,10 @@ def main():
         res["patch_applies"] = rc == 0
         rc, out = sh(f"go test -vet=off -count=1 ./{demo_dir}/", cwd=wt)
         res["demo_patched_fails"] = rc != 0
+        if rc == 0:  # demonstrations of data races need the race detector
+            rc, out = sh(f"go test -race -vet=off -count=1 ./{demo_dir}/", cwd=wt)
+            res["demo_patched_fails"] = rc != 0
+            res["demo_needs_race"] = rc != 0
         os.remove(demo)
         rc, out = sh("go build ./... && go test -vet=off -count=1 ./...", cwd=wt)
         res["suite_passes_with_patch"] = rc == 0
